@@ -72,6 +72,24 @@ def family_dist(tier, seed, n=None):
                     {"op": "probe", "call": wcall(), "paths": ["o1.a", "o1.b"]},
                     {"op": "explore", "call": mcall(), "paths": ["o1.a", "o1.b"], "dist_free": [] if extra else ["o1.a"]}]
         out.append({"id": "D15/%s/%d" % ("core" if core else "s%d" % seed, t), "world": world, "ops": ops, "tags": []})
+    # bounds, values and weights that are EXPRESSIONS over non-random fields (c + 1 .. d + 1 with weight k + 1): each operand
+    # keeps its place
+    for t in range(3 if tier == "quick" else 9):
+        rnd = random.Random(1530 + t)
+        cv, dv, kv = rnd.choice([(1, 3), (0, 2), (2, 4)]), None, rnd.randrange(3)
+        cv, dv = cv
+        fields = [fld("a", 3, False), fld("b", 2, False), fld("c", 3, False, rand=False, init=cv), fld("d", 3, False, rand=False, init=dv),
+                  fld("k", 3, False, rand=False, init=kv)]
+        ws = [{"it": {"k": "r", "lo": B("add", F("c"), lit(1)), "hi": B("add", F("d"), lit(1))}, "w": B("add", F("k"), lit(1))},
+              {"it": {"k": "v", "e": B("add", F("d"), lit(2))}, "w": F("k") if t % 3 == 0 else lit(2)}]          # (d + 2 <= 7: inside the type of a)
+        if t % 2 == 1:
+            ws.append({"it": {"k": "r", "lo": F("c"), "hi": F("c")}, "w": B("sub", F("k"), F("k"))})          # weight 0
+        world = one(fields, [blk("c1", [{"k": "dist", "e": F("a"), "ws": ws}])])
+        ex = {"op": "explore", "call": mcall(), "paths": ["o1.a", "o1.b"], "dist_free": ["o1.a"]}
+        ops = [{"op": "construct", "o": "o1"}, {"op": "call", "call": mcall()}, {"op": "probe", "call": wcall(), "paths": ["o1.a", "o1.b"]}, dict(ex),
+               {"op": "set", "p": "o1.k", "v": bits(3 - kv, 3)}, {"op": "set", "p": "o1.d", "v": bits(dv + 1, 3)},
+               {"op": "probe", "call": wcall(), "paths": ["o1.a", "o1.b"]}, dict(ex)]
+        out.append({"id": "D15/exprbounds/%d" % t, "world": world, "ops": ops, "tags": []})
     return out
 
 
@@ -338,11 +356,11 @@ def family_starve(tier, seed, n=None):
     # (h) bounds taken from a non-random EXPRESSION that is evaluated with integers: the sum / product of a non-random list whose
     #     length changes between calls; a signed division with a negative divisor; memberships of a signed field in a range
     #     whose limits are unsigned fields (an unsigned comparison: the feasible values are negative); negative single values
-    m = 8 if tier == "quick" else 48
+    m = 10 if tier == "quick" else 60
     for t in range(m):
         core = t < (m + 1) // 2
         rnd = random.Random((1424 if core else 5400 + seed) * 100003 + t)
-        kind = ["nr_sum", "nr_div", "in_mixed", "in_negval"][t % 4]
+        kind = ["nr_sum", "nr_div", "in_mixed", "in_negval", "mixed_rel"][t % 5]
         mp = 4000 if tier == "quick" else 40000
         ops = [{"op": "construct", "o": "o1"}]
         if kind == "nr_sum":
@@ -365,6 +383,16 @@ def family_starve(tier, seed, n=None):
             ex = {"op": "explore", "call": mcall(), "paths": ["o1.a", "o1.b"], "max_paths": mp}
             for cv, dv in [(-3, -2), (3, -2), (-4, 3), (rnd.randrange(-4, 4), rnd.choice([-3, -2, -1, 1, 2, 3])), (-4, -1)][:4 if tier == "quick" else 5]:
                 ops += [{"op": "set", "p": "o1.c", "v": bits(cv, 3)}, {"op": "set", "p": "o1.d", "v": bits(dv, 3)}, dict(ex)]
+        elif kind == "mixed_rel":
+            # a signed random field ordered against an UNSIGNED non-random one: an unsigned comparison, negative values of a are
+            # large - whatever value an earlier call left in a
+            fields = [fld("a", 3, True), fld("b", 1, False), fld("c", 2, False, rand=False, init=1)]
+            body = [E(B(["gt", "ge", "gt", "lt"][(t // 5) % 4], F("a"), F("c")))]
+            if t % 2 == 0:
+                body.append(E({"k": "in", "e": F("a"), "items": [{"k": "r", "lo": lit(-4), "hi": lit(-3)}, {"k": "r", "lo": lit(1), "hi": lit(3)}], "neg": False}))
+            ex = {"op": "explore", "call": mcall(), "paths": ["o1.a", "o1.b"], "max_paths": mp}
+            for av, cv in [(0, 1), (3, 2), (-1, 1), (2, 0)]:
+                ops += [{"op": "set", "p": "o1.a", "v": bits(av, 3)}, {"op": "set", "p": "o1.c", "v": bits(cv, 2)}, dict(ex)]
         elif kind == "in_mixed":
             # lo / hi are UNSIGNED fields, a is signed: the limits and a are compared as unsigned numbers
             fields = [fld("a", 3, True), fld("b", 1, False), fld("c", 3, False, rand=False, init=4), fld("d", 3, False, rand=False, init=6)]
